@@ -78,6 +78,14 @@ def gen(rng, tier):
             for pre in ("0x", ""):
                 for v in (27, 28):
                     cases.append(Case("cli.hash_tx %s %s" % (hx(j), hx(pre + "%064x%064x%02x" % (r, s_, v))), tags=("interop", "kind:" + kind + ("-unprotected" if chain == "absent" else "")), runner="cli", meta={"sig_style": rng.choice(["eq", "sep", "short"])}))
+    # what `sign transaction --signature-only` prints is a text of this form for every kind of transaction and every chain id
+    # (v = 27 + parity there, whatever v the signed transaction itself carries), and it feeds `hash transaction --signature`
+    from vlib import bip39 as _b39
+    mn_ = hx(" ".join(_b39.rand_phrase(rng, 12)))
+    for kind, chain in (("legacy", "absent"), ("legacy", 1), ("legacy", 1337), ("legacy", 2 ** 64 - 1), ("legacy", 2 ** 255 - 19), ("eip2930", None), ("eip1559", None)):
+        for _ in range(3 if tier == "thorough" else 2):
+            j, _e = txgen.rand_tx(rng, kind=kind, chain=chain)
+            cases.append(Case("cli.sign_tx %s - default %s 1 %d" % (mn_, hx(j), 1 if chain == "absent" else rng.randrange(2)), tags=("interop", "signature-only", "kind:" + kind), runner="cli", meta={"via": {}, "via_file": False}))
     # ... and texts that denote no signature are refused by the command too (the empty text included: an option that is given
     # is a signature, not "none")
     jj, _e = txgen.rand_tx(rng, kind="legacy", chain=1)
